@@ -906,6 +906,17 @@ def call_ext(it, dotted, args, kwargs):
             v = args[0]
             if isinstance(v, Obj):
                 return ClassRef(v.cls)
+            for pyt, nm in ((bool, 'bool'), (int, 'int'), (str, 'str'), (list, 'list'), (tuple, 'tuple'), (dict, 'dict'), (set, 'set'), (type(None), 'NoneType')):
+                if isinstance(v, pyt):
+                    return ExtRef('builtins.' + nm)
+            if isinstance(v, StrT):
+                return ExtRef('builtins.str')
+            if isinstance(v, (Rat, float, Fr)):
+                return ExtRef('builtins.float' if to_rat(v).is_real() else 'builtins.complex')     # symbolic numbers stand for floats
+            if isinstance(v, PolyT):
+                return ExtRef('numpy.poly1d')
+            if isinstance(v, Arr):
+                return ExtRef('numpy.ndarray')
             return Opaque('type(%r)' % (v,))
         if short == 'object' and not args:
             return Opaque('object()')       # a sentinel: only its identity matters
@@ -1102,6 +1113,11 @@ def call_ext(it, dotted, args, kwargs):
         from .values import PyFunc
         fields = list(args[1]) if not isinstance(args[1], str) else args[1].replace(',', ' ').split()
         return PyFunc(lambda it2, a, k, fields=fields: Opaque('namedtuple', attrs=dict(list(zip(fields, a)) + list(k.items()))), 'namedtuple')
+    if mod == 'operator' and short in ('mul', 'add', 'sub', 'truediv', 'neg', 'pow', 'floordiv', 'mod'):
+        ops = {'mul': ast.Mult, 'add': ast.Add, 'sub': ast.Sub, 'truediv': ast.Div, 'pow': ast.Pow, 'floordiv': ast.FloorDiv, 'mod': ast.Mod}
+        if short == 'neg':
+            return binop(it, ast.Sub(), 0, args[0])
+        return binop(it, ops[short](), args[0], args[1])
     if short == 'itemgetter':
         k = args[0] if isinstance(args[0], str) else as_int(args[0])
         return _ItemGetter(k)
